@@ -12,15 +12,18 @@ Variable zero : A.
 Variable ext : ident -> ident -> val A -> list (val A) -> option (val A).
 Variable prog : program.
 Notation I := (interp_at A zero ext prog).
-Lemma eval_S f : i_eval (I (S f)) = eval_step A zero prog (I f).
+(* stated with all the arguments, so that rewriting touches the computation in head position only, not the
+   occurrences (with bound environments) inside the continuations *)
+Lemma eval_S f e en : i_eval (I (S f)) e en = eval_step A zero prog (I f) e en.
 Proof. reflexivity. Qed.
-Lemma assign_S f : i_assign (I (S f)) = assign_step A (I f).
+Lemma assign_S f t v en : i_assign (I (S f)) t v en = assign_step A (I f) t v en.
 Proof. reflexivity. Qed.
-Lemma exec_S f : i_exec (I (S f)) = exec_step A zero (I f).
+Lemma exec_S f s en : i_exec (I (S f)) s en = exec_step A zero (I f) s en.
 Proof. reflexivity. Qed.
-Lemma loop_S f c post body : i_loop (I (S f)) c post body = loop_step A (I f) (i_loop (I f) c post body) c post body.
+Lemma loop_S f c post body en :
+  i_loop (I (S f)) c post body en = loop_step A (I f) (i_loop (I f) c post body) c post body en.
 Proof. reflexivity. Qed.
-Lemma call_S f : i_call (I (S f)) = call_step A ext prog (I f).
+Lemma call_S f recv m args : i_call (I (S f)) recv m args = call_step A ext prog (I f) recv m args.
 Proof. reflexivity. Qed.
 End Unfold.
 
@@ -48,7 +51,7 @@ Ltac gostep := first [rewrite eval_S | rewrite assign_S | rewrite exec_S | gofin
 Ltac gorun := gored; repeat (gostep; gored).
 (* enter the call / the loop iteration that is in head position now *)
 Ltac gocall := gored; rewrite call_S; gorun.
-Ltac goloop := gored; rewrite loop_S; gorun.
+Ltac goloop := gored; rewrite loop_S; unfold loop_step; gorun.
 (* enter every call *)
 Ltac gorun_in := gorun; repeat (rewrite call_S; gorun).
 
